@@ -332,13 +332,57 @@ func (e *env) gen(R *vh.Rng) (byte, []byte) {
 		h = e.height() + 1
 	}
 	ch := channels[R.Intn(len(channels))]
-	switch c := R.Intn(100); {
+	c := R.Intn(100)
+	switch {
 	case c < 8: // bytes
 		return ch, R.Bytes([]int{0, 1, 2, 5, 40, 300, 5000}[R.Intn(7)])
 	case c < 12: // a known type byte followed by garbage
 		return ch, append([]byte{[]byte{0x01, 0x02, 0x11, 0x12, 0x13, 0x14, 0x15, 0x16, 0x17, 0x10, 0x20, 0x21, 0x03}[R.Intn(13)]}, R.Bytes(R.Intn(60))...)
 	case c < 16: // absurd length prefixes
 		return ch, append([]byte{[]byte{0x11, 0x13, 0x14, 0x17, 0x03}[R.Intn(5)], 0x08, 0x7f, 0xff, 0xff, 0xff, 0xff, 0xff, 0xff, 0xff}, R.Bytes(R.Intn(20))...)
+	}
+	if c < 30 { // the other reactors: block sync, mempool, peer exchange
+		be := func(v int64) []byte {
+			b := make([]byte, 8)
+			for i := 0; i < 8; i++ {
+				b[7-i] = byte(uint64(v) >> (8 * uint(i)))
+			}
+			return b
+		}
+		switch R.Intn(8) {
+		case 0: // block request
+			return bc.BlockchainChannel, append([]byte{0x10}, be(e.i64(R, h-1))...)
+		case 1: // status request / response
+			return bc.BlockchainChannel, append([]byte{[]byte{0x20, 0x21}[R.Intn(2)]}, be(e.i64(R, h))...)
+		case 2: // block response: no block, or garbage where the block should be
+			if R.Bool() {
+				return bc.BlockchainChannel, bc.VerifBlockResponseBytes(nil)
+			}
+			return bc.BlockchainChannel, append([]byte{0x11, 0x01}, R.Bytes(R.Intn(300))...)
+		case 3: // a block response with holes
+			b := &types.Block{Header: &types.Header{ChainID: "c06-chain", Height: e.i64(R, h)}}
+			if R.Bool() {
+				b.Data = &types.Data{}
+			}
+			if R.Bool() {
+				b.LastCommit = &types.Commit{}
+			}
+			return bc.BlockchainChannel, bc.VerifBlockResponseBytes(b)
+		case 4, 5: // mempool transaction: bytes of every kind
+			tx := R.Bytes([]int{0, 1, 30, 200, 3000}[R.Intn(5)])
+			return 0x30, append([]byte{0x01}, enc(tx)...)
+		case 6: // peer exchange: request
+			return p2p.PexChannel, []byte{0x01}
+		default: // peer exchange: addresses
+			n := R.Intn(6)
+			b := []byte{0x02}
+			b = append(b, enc(n)...)
+			for i := 0; i < n; i++ {
+				b = append(b, enc(R.Bytes([]int{0, 4, 16, 40}[R.Intn(4)]))...) // IP
+				b = append(b, byte(R.Intn(256)), byte(R.Intn(256)))            // port
+			}
+			return p2p.PexChannel, b
+		}
 	}
 	var m pbft.ConsensusMessage
 	switch R.Intn(12) {
@@ -509,8 +553,8 @@ func main() {
 		return
 	}
 	bitArrays(r)
-	for q := r.Scale(2, 10); q > 0; q-- {
-		e.attack(r.Scale(600, 3000), nil)
+	for q := r.Scale(2, 6); q > 0; q-- {
+		e.attack(r.Scale(600, 1500), nil)
 	}
 }
 
